@@ -42,6 +42,8 @@ ValidFrom(bs, i) ==
            [] b = 244 -> has(3) /\ bs[i + 1] >= 128 /\ bs[i + 1] <= 143 /\ Cont(bs[i + 2]) /\ Cont(bs[i + 3]) /\ ValidFrom(bs, i + 4)
            [] OTHER -> FALSE
 ValidUtf8(bs) == ValidFrom(bs, 1)
+(* number of characters of well-formed UTF-8 = number of bytes that are not continuation bytes *)
+Utf8CharCount(bs) == Cardinality({i \in 1..Len(bs) : ~Cont(bs[i])})
 
 (* ---- message 1029: 7-bit character count, 8-bit byte count, the bytes ----------------- *)
 Msg1029Accepts(cps) == Len(cps) <= 127 /\ ByteLen(cps) <= 255
